@@ -13,6 +13,7 @@ import (
 	"github.com/btcsuite/btcd/wire"
 	"github.com/btcsuite/btcwallet/waddrmgr"
 	"github.com/btcsuite/btcwallet/wallet"
+	"github.com/btcsuite/btcwallet/walletdb"
 	"github.com/btcsuite/btcwallet/wtxmgr"
 
 	"verifsim/core"
@@ -44,6 +45,9 @@ func genC06(r *core.Rand, p *core.Plan) {
 	}
 	p.Ops = append(p.Ops, core.Op{K: "sync"})
 	n := r.Range(5, 22)
+	if p.Cfg["thorough"] == 1 {
+		n = r.Range(15, 50)
+	}
 	for i := 0; i < n; i++ {
 		switch r.Weighted([]int{34, 10, 10, 8, 8, 6, 8, 6, 10}) {
 		case 0:
@@ -372,6 +376,25 @@ func (rs *runState) send6(task, step int, op core.Op) {
 				}
 				continue
 			}
+			// The wallet may legitimately know an unconfirmed transaction the
+			// node has dropped from its mempool (after a reorg a transaction
+			// spending a coinbase that is immature again is evicted by the node
+			// but stays recorded in the wallet until a conflict confirms). Its
+			// outputs are wallet credits with zero confirmations; judge them on
+			// the wallet's own record.
+			if to := x.node.TxOut(opnt); to != nil && !x.node.Known(opnt.Hash) && x.txHeightInWallet(opnt.Hash) == -1 {
+				if idx, own := x.byScript[string(to.PkScript)]; own {
+					c := coin{op: opnt, value: to.Value, pkScript: to.PkScript, owner: x.issuedAddrs[idx], height: -1}
+					env.Count("probe.input-from-tx-the-node-dropped")
+					if why := x.ineligibleReason(c, scope, account, minconf, tip); why != "" {
+						x.fail("ineligible-input:"+why+":"+kind, "%s(scope=%s account=%d minconf=%d) spends %v (unconfirmed, parent evicted by the node) which is not eligible: %s", kind, sc, account, minconf, opnt, why)
+						return
+					}
+					prevOuts[opnt] = to
+					inSum += to.Value
+					continue
+				}
+			}
 			why := "unknown-output"
 			if to := x.node.TxOut(opnt); to != nil {
 				if _, own := x.byScript[string(to.PkScript)]; !own {
@@ -405,9 +428,23 @@ func (rs *runState) send6(task, step int, op core.Op) {
 		if !prev.published || prev.ret > call {
 			continue // not (yet) published when this request started
 		}
+		if !x.node.Known(prev.tx.TxHash()) {
+			// the earlier transaction no longer exists anywhere (a reorg removed
+			// a coinbase it depended on, or a conflicting transaction confirmed):
+			// its other inputs are legitimately spendable again
+			continue
+		}
 		for _, pin := range prev.tx.TxIn {
 			if seen[pin.PreviousOutPoint] {
-				x.fail("input-reused-after-publish:"+kind, "input %v of the already published tx %s is used again by %s", pin.PreviousOutPoint, short(prev.tx.TxHash()), short(tx.TxHash()))
+				ph := prev.tx.TxHash()
+				state := "unknown to the wallet"
+				if sn, e := x.snap(); e == nil && sn.unmined[ph] {
+					state = "recorded as unconfirmed by the wallet"
+				} else if d := x.txHeightInWallet(ph); d != -2 {
+					state = fmt.Sprintf("recorded by the wallet at height %d", d)
+				}
+				x.fail("input-reused-after-publish:"+kind, "input %v of the already published tx %s is used again by %s (the earlier tx is %s; node: mempool=%v confirmed=%d)",
+					pin.PreviousOutPoint, short(ph), short(tx.TxHash()), state, x.node.InMempool(ph), x.node.Confirmed(ph))
 				return
 			}
 		}
@@ -491,4 +528,18 @@ func (rs *runState) lockop(step int, op core.Op) {
 		x.env.Count("op.UnlockOutpoint")
 	}
 	x.env.Eff()
+}
+
+// txHeightInWallet returns the height the wallet records for a transaction
+// (-1 unconfirmed, -2 unknown).
+func (x *world) txHeightInWallet(h chainhash.Hash) int32 {
+	out := int32(-2)
+	_ = walletdb.View(x.w.Database(), func(tx walletdb.ReadTx) error {
+		d, err := x.w.TxStore.TxDetails(tx.ReadBucket(wtxmgrNS), &h)
+		if err == nil && d != nil {
+			out = d.Block.Height
+		}
+		return nil
+	})
+	return out
 }
